@@ -115,6 +115,51 @@ theorem c11_own_watches (id path : String) (line : Int) (args : Args) (watches :
       subst ha
       simp [Spec.spanAction] at hty
 
+/-- only the snapshot action evaluates watches: log, metric and span actions carry no watch list at all -/
+theorem c11_watches_only_in_snapshot (id path : String) (line : Int) (args : Args) (watches : List String)
+    (metrics : List MetricDefinition) (t : Trigger)
+    (hb : build_trigger id path line args watches metrics = some t) :
+    ∀ a ∈ t.actions, a.action_type ≠ .Snapshot → a.config.lookup "watches" = none := by
+  rw [c11_table] at hb
+  unfold Spec.trigger at hb
+  cases hl : Spec.locationOf path line args with
+  | none => simp [hl] at hb
+  | some l =>
+    simp only [hl, Option.map_some, Option.some.injEq] at hb
+    subst hb
+    intro a ha hty
+    simp only [Spec.actionsOf, List.mem_append] at ha
+    rcases ha with ((ha | ha) | ha) | ha
+    · split at ha <;> simp at ha
+      subst ha
+      simp [Spec.snapshotAction] at hty
+    · split at ha
+      · split at ha <;> simp at ha
+        subst ha
+        simp [Spec.logAction, Spec.limits, List.lookup]
+      · simp at ha
+    · split at ha <;> simp at ha
+      subst ha
+      simp [Spec.metricAction, Spec.limits, List.lookup]
+    · split at ha <;> simp at ha
+      subst ha
+      simp [Spec.spanAction, Spec.limits, List.lookup]
+
+/-- **what `c11_table` does NOT give** — a method stage without `method_name`: the table (like the code) places the
+    tracepoint on `FunctionLocation path None`, which does not contain the line at all: two such tracepoints on
+    different lines of one file are the same trigger.  Where it then fires is location matching, recorded as finding
+    `C03/nameless-method-location`; C11's statement "placed on the named method" has nothing to say here. -/
+theorem c11_nameless_method_ignores_line (id path : String) (l₁ l₂ : Int) (args : Args) (watches : List String)
+    (metrics : List MetricDefinition) (st : String) (hst : args.lookup "stage" = some st)
+    (hm : st ∈ ["method_start", "method_end", "method_capture"]) (hn : args.lookup "method_name" = none) :
+    build_trigger id path l₁ args watches metrics = build_trigger id path l₂ args watches metrics ∧
+    (build_trigger id path l₁ args watches metrics).map (fun t => t.location)
+      = some (.FunctionLocation path none (Spec.positionOf st)) := by
+  simp only [c11_table, Spec.trigger, Spec.locationOf, Spec.stageOf, Spec.arg, hst, hn, Spec.lineStages,
+    Spec.methodStages]
+  simp only [List.mem_cons, List.not_mem_nil, or_false] at hm
+  rcases hm with h | h | h <;> subst h <;> simp
+
 /-- **same location keeps all actions** — whatever else is in the response, every action of every tracepoint that
     builds is in the installed trigger with that tracepoint's location id -/
 theorem c11_merge_keeps_all (tps : List TP) : ∀ tp ∈ tps, ∀ t, tp.build = some t →
@@ -144,22 +189,47 @@ theorem c11_registered_usable (tps : List TP) : ∀ e ∈ registerAll tps, e.isS
   rfl
 
 /-- metric definitions reach the agent unchanged: name, type NAME, labels (static value or expression),
-    expression, namespace, help, unit — for every list of definitions -/
-theorem c11_metric_defs (ms : List PMetric) : convert_metric_definition ms = ms.map Spec.metricDef := by
+    expression, namespace, help, unit — for every list of definitions; a definition whose type number is not one of
+    the four documented ones makes the conversion fail (proto3 enums are open: `MetricType.Name` raises) -/
+theorem c11_metric_defs (ms : List PMetric) : convert_metric_definition ms = ms.mapM Spec.metricDef := by
   unfold convert_metric_definition
-  apply List.map_congr_left
-  intro m _
-  have ht : metricTypeName m.type = (["COUNTER", "GAUGE", "HISTOGRAM", "SUMMARY"][m.type]?).getD "" := by
+  congr 1
+  funext m
+  have ht : metricTypeName m.type = ["COUNTER", "GAUGE", "HISTOGRAM", "SUMMARY"][m.type]? := by
     unfold metricTypeName metricTypeNames
     rcases m.type with _ | _ | _ | _ | _ | n <;> simp [List.lookup]
   simp [Spec.metricDef, convert_label_expressions, ht]
 
+/-- **a tracepoint that cannot be CONVERTED** (a metric of a type this version does not know) is in the same
+    position as one that cannot be interpreted: its conversion raises, it builds nothing … -/
+theorem c11_unconvertible (tp : TP) (m : PMetric) (hm : m ∈ tp.metrics) (hty : 4 ≤ m.type) :
+    tp.outcome = .raised ∧ tp.build = none := by
+  have hn : convert_metric_definition tp.metrics = none := by
+    unfold convert_metric_definition
+    apply mapM_none_of_mem _ tp.metrics m hm
+    have : metricTypeName m.type = none := by
+      unfold metricTypeName metricTypeNames
+      rcases hmt : m.type with _ | _ | _ | _ | _ | n <;> simp [List.lookup] <;> omega
+    simp [this]
+  have ho : tp.outcome = .raised := by unfold TP.outcome; rw [hn]
+  exact ⟨ho, by unfold TP.build; rw [ho]⟩
+
+/-- … and **no tracepoint can lose the response**: with the two guards read from the source (exception while
+    converting one tracepoint → skipped, `None` trigger → skipped) `convert_response` returns for EVERY response, and
+    returns what `convertResponse` says (so `c11_isolated` covers "cannot be converted" and "cannot be
+    interpreted" alike) -/
+theorem c11_response_never_lost (tps : List TP) : convertResponseRaw [] tps = some (convertResponse tps) :=
+  raw_eq tps []
+
 /-- ids are what groups tracepoints: the trigger stored under an id keeps the location of the FIRST tracepoint
-    with that id.  Placement therefore needs ids to identify places — see the witness below. -/
+    with that id.  Placement therefore needs ids to identify PLACES (file + line, or file + method; the START / END /
+    CAPTURE position is not interpreted, so a `line_start` and a `line_end` tracepoint of one line share a place and
+    satisfy the hypothesis) — see the witness below for ids that do not. -/
 theorem c11_group_location_partial (tps : List TP)
     (NoIdClash : ∀ tp₁ ∈ tps, ∀ tp₂ ∈ tps, ∀ t₁ t₂, tp₁.build = some t₁ → tp₂.build = some t₂ →
-      t₁.id = t₂.id → t₁.location = t₂.location) :
-    ∀ g ∈ convertResponse tps, ∀ tp ∈ tps, ∀ t, tp.build = some t → t.id = g.id → t.location = g.location := by
+      t₁.id = t₂.id → place t₁.location = place t₂.location) :
+    ∀ g ∈ convertResponse tps, ∀ tp ∈ tps, ∀ t, tp.build = some t → t.id = g.id →
+      place t.location = place g.location := by
   -- invariant: every stored trigger has the location of some building tracepoint with its id
   have inv : ∀ (rest : List TP) (acc : List Trigger), (∀ tp ∈ rest, tp ∈ tps) →
       (∀ g ∈ acc, ∃ tp ∈ tps, ∃ t, tp.build = some t ∧ t.id = g.id ∧ t.location = g.location) →
@@ -185,9 +255,10 @@ theorem c11_group_location_partial (tps : List TP)
   rw [← hl']
   exact NoIdClash tp hm tp' hm' t t' hb hb' (hid.trans hi'.symm)
 
-/-- the hypothesis is needed: a method tracepoint whose method is NAMED like a line number shares the id of the
-    line tracepoint (`"a.py#10"`), and its action is installed on the LINE. (Harmless in practice — no Python
-    function is called `10` — and outside what the generators produce; recorded so the hypothesis is not hidden.) -/
+/-- the hypothesis is needed: ids are texts `path#line` / `path#method_name`, so a method tracepoint whose method is
+    NAMED like a line number shares the id of the line tracepoint (`"a.py#10"`) and its action is installed on the
+    LINE.  (No Python function is called `10`; the generators do not produce it.  The everyday same-id case — several
+    stages on one line — is NOT a clash: same place.) -/
 theorem c11_id_clash_witness :
     let tps : List TP := [⟨"t1", "a.py", 10, [], [], []⟩, ⟨"t2", "a.py", 3, [("method_name", "10")], [], []⟩]
     (convertResponse tps).map (fun g => (g.location, g.actions.map (·.id)))
